@@ -23,6 +23,7 @@ ASSUMPTIONS = ["gateway models in gateways/sim.py (reports in bus order, one out
 EXHAUSTIVE = {"quick": False, "thorough": False}
 REQUIRED_ANCHORS = {"all": ["sends_checked", "silent_outcomes", "value_outcomes", "error_outcomes", "multi_caller_runs",
                             "daliserver_checked", "atx_checked", "dfs_runs", "drivers_tridonic", "drivers_hasseb", "drivers_luba", "drivers_sci"]}
+SPURIOUS_DRIVERS = ("tridonic", "hasseb")
 SHARD_TIMEOUT = {"quick": 600, "thorough": 3000}
 
 
@@ -81,9 +82,17 @@ def run_async_case(driver, seed, part, i, res, forced=None):
     outcome = {}
 
     def answer(width, value, idx, dt):
-        from gateways.sim import is_query
+        from gateways.sim import is_query, is_send_twice
         if not is_query(width, value, dt):
-            # a unit answering a command that expects no answer is not modelled
+            # a backward frame nobody asked for (a misbehaving unit, noise read as a frame) after a plain command: the HID
+            # gateways report it like any other; the caller of a command that expects no answer must still get None.
+            # (not after send-twice frames - that is the "interrupted" case of C20 - and not on the serial gateways, where
+            # an unsolicited report falls under the recorded foreign-traffic finding)
+            if driver in SPURIOUS_DRIVERS and not is_send_twice(width, value, dt) and not (width == 16 and value >> 8 == 0xC1):
+                rs = rng(seed, "C16", "spurious", driver, part, i if forced is None else forced["scenario"], width, value)
+                if rs.random() < 0.15:
+                    res.hit("spurious_answers")
+                    return ("ok", rs.getrandbits(8)) if rs.random() < 0.7 else ("collision", rs.getrandbits(8))
             return None
         key = (width, value)
         if key not in outcome:
@@ -119,10 +128,34 @@ def run_async_case(driver, seed, part, i, res, forced=None):
                 results[(c, k)] = ("exc", e)
             windows[(c, k)] = (t_call, sim.world.now)
 
+    # callers that give up while still *queued* behind somebody else's transaction (wait_for timing out, a cancelled
+    # task): they never touch the gateway, and the callers in flight must not notice them
+    quitters = [r.choice([0.004, 0.011, 0.025, 0.06, 0.1, 0.2]) for _ in range(r.choice([0, 0, 1, 2]))] if forced is None else [0.011]
+    quit_log = []
+
+    async def quitter(j, start):
+        await asyncio.sleep(start)
+        lock = getattr(sim.driver, "transaction_lock", None)
+        if lock is None or not lock.locked():
+            return
+        t = asyncio.ensure_future(sim.driver.send(simlib.make_command(r, "query", 3, j, driver)))
+        await asyncio.sleep(0)          # the task runs up to its wait for the lock; no virtual time passes
+        t.cancel()
+        try:
+            await t
+            quit_log.append("returned")
+        except asyncio.CancelledError:
+            quit_log.append("cancelled")
+            res.hit("queued_callers_cancelled")
+        except Exception as e:
+            quit_log.append(repr(e))
+
     async def main(sim):
         await sim.connect()
         for (dly, w_, v_, a_) in foreign:
             sim.dev.foreign(dly, w_, v_, a_)
+        for j, st in enumerate(quitters):
+            asyncio.ensure_future(quitter(j, st))
         starts = [r.choice([0, 0.001, 0.02, 0.05]) if forced is None else picker.pick(f"start{c}", [0, 0.001, 0.02, 0.05])
                   for c in range(len(plans))]
         tasks = [asyncio.ensure_future(caller(c, cmds, starts[c])) for c, cmds in enumerate(plans)]
@@ -235,36 +268,74 @@ def write_time(sim, cmd, t0):
 # --------------------------------------------------------------------------------------- sync drivers
 
 class FakeSocketModule:
-    def __init__(self, outcome_fn):
+    """Stands in for the socket module inside dali.driver.daliserver: a server whose replies take (virtual) time."""
+
+    def __init__(self, outcome_fn, delay_fn=None):
+        import socket as _real
+        self._real = _real
         self.outcome_fn = outcome_fn
+        self.delay_fn = delay_fn or (lambda data: 0.0)
         self.sent = []
         self.opened = 0
         self.closed = 0
+        self.now = 0.0
+        self.timeouts = 0
+        self.socks = []
 
-    def create_connection(self, target):
+    def __getattr__(self, name):
+        # constants and exception classes (socket.timeout, socket.error, AF_INET, ...) are the real module's
+        return getattr(self._real, name)
+
+    def create_connection(self, target, timeout=None, *args, **kw):
         self.opened += 1
-        sock = FakeSocket(self)
-        self.socks = getattr(self, "socks", []) + [sock]
+        sock = FakeSocket(self, timeout)
+        self.socks.append(sock)
         return sock
 
     def pending_total(self):
-        return sum(len(x.pending) for x in getattr(self, "socks", []))
+        return sum(len(x.pending) for x in self.socks)
 
 
 class FakeSocket:
-    def __init__(self, mod):
+    def __init__(self, mod, timeout=None):
         self.mod = mod
-        self.pending = []
+        self.pending = []          # (available at, bytes)
+        self.timeout = timeout
+
+    def settimeout(self, t):
+        self.timeout = t
+
+    def gettimeout(self):
+        return self.timeout
+
+    def setsockopt(self, *a):
+        pass
 
     def send(self, data):
         self.mod.sent.append(bytes(data))
-        self.pending.append(self.mod.outcome_fn(bytes(data)))
+        self.pending.append((self.mod.now + self.mod.delay_fn(bytes(data)), self.mod.outcome_fn(bytes(data))))
+        return len(data)
 
-    def recv(self, n):
-        return self.pending.pop(0)
+    sendall = send
+
+    def recv(self, n, *flags):
+        if not self.pending:
+            return b""
+        at, data = self.pending[0]
+        if at > self.mod.now:
+            if self.timeout is not None and self.mod.now + self.timeout < at:
+                self.mod.now += self.timeout
+                self.mod.timeouts += 1
+                raise self.mod._real.timeout("timed out")
+            self.mod.now = at
+        self.pending.pop(0)
+        return data
 
     def close(self):
         self.mod.closed += 1
+
+    def shutdown(self, *a):
+        pass
 
 
 def run_daliserver(seed, res):
@@ -287,7 +358,10 @@ def run_daliserver(seed, res):
             for cmd, oc, v in cmds:
                 replies[bytes([2, 0]) + bytes(cmd.frame.pack)] = {"none": bytes([2, 0, 0, 0]), "value": bytes([2, 1, v, 0]),
                                                                  "error": bytes([2, 255, 0, 0]), "bad-status": bytes([2, 7, 0, 0])}[oc if cmd.response is not None else "none"]
-            mod = FakeSocketModule(lambda data: replies.get(data, bytes([2, 0, 0, 0])))
+            # a daliserver busy with other clients / a busy bus answers late: the reply still belongs to its command
+            slow = session % 3 == 2
+            delays = {k: (r.choice([0.0, 0.02, 0.3, 1.1, 2.6, 7.0]) if slow else r.choice([0.0, 0.02])) for k in replies}
+            mod = FakeSocketModule(lambda data: replies.get(data, bytes([2, 0, 0, 0])), lambda data: delays.get(data, 0.0))
             D.socket = mod
             outs = []
             try:
@@ -306,12 +380,18 @@ def run_daliserver(seed, res):
                 wit = {"driver": "daliserver", "command": str(cmd), "outcome": oc, "value": v, "one_connection": multi,
                        "session": [(str(c), o, vv) for c, o, vv in cmds]}
                 if cmd.response is None:
-                    if out != ("ok", None):
+                    if out[0] == "exc" and mod.timeouts and isinstance(out[1], (TimeoutError, OSError, CommunicationError)):
+                        res.observe("daliserver-gave-up-on-slow-reply", f"{type(out[1]).__name__} after {mod.timeouts} timeouts")
+                    elif out != ("ok", None):
                         res.violation("C16/daliserver/answer-for-non-query", f"send({cmd}) gave {out}", wit)
                     continue
                 if oc == "bad-status":
                     if not (out[0] == "exc" and isinstance(out[1], CommunicationError)):
                         res.violation("C16/daliserver/bad-status", f"status 7 gave {out}", wit)
+                    continue
+                if out[0] == "exc" and mod.timeouts and isinstance(out[1], (TimeoutError, OSError, CommunicationError)):
+                    # the driver gave up waiting for a slow server and said so: loud, not a wrong answer - not judged here
+                    res.observe("daliserver-gave-up-on-slow-reply", f"{type(out[1]).__name__} after {mod.timeouts} timeouts")
                     continue
                 if out[0] == "exc":
                     res.violation(f"C16/daliserver/send-raised/{type(out[1]).__name__}", f"send({cmd}) raised {type(out[1]).__name__}: {out[1]}", wit)
@@ -327,7 +407,9 @@ def run_daliserver(seed, res):
                 if not ok:
                     res.violation(f"C16/daliserver/wrong-answer/{oc}", f"send({cmd}): daliserver reported {oc} {v} for this frame, caller received "
                                   f"{None if raw is None else ('error' if raw.error else raw.as_integer)!r}", wit)
-            if mod.pending_total():
+            if slow:
+                res.hit("daliserver_slow_sessions")
+            if mod.pending_total() and not mod.timeouts:
                 res.violation("C16/daliserver/unread-replies", f"{mod.pending_total()} replies of the server were left unread in the session",
                               {"session": [(str(c), o, vv) for c, o, vv in cmds], "one_connection": multi})
             if mod.opened != mod.closed:
